@@ -227,11 +227,9 @@ def discovered_stage(rep, G, pid, n, need_auth, need_priv, prefixes):
 
     def body(c):
         try:
-            nmsg, _ = c13.execute(G, c)
+            nmsg, _ = c13.execute_confirmed(G, c, rep)
         except core.Failure as f:
-            if "TimeoutError" in f.message and f.signature in ("request-failed", "message-count", "refresh-failed", "lost-probe-outcome"):
-                nmsg, _ = c13.execute(G, c, slow=True)
-            elif f.signature.startswith(tuple(prefixes)):
+            if f.signature.startswith(tuple(prefixes)):
                 raise core.Failure("discovered-session:" + f.signature, f.message)
             else:
                 rep.count("discovered_session_failures_left_to_C13")
